@@ -29,6 +29,8 @@ def _case(draw):
             'faults': draw(st.one_of(st.just([]), st.lists(st.sampled_from([False, False, False, True]), min_size=12, max_size=12))),
             # transactions that are broadcast writes (unit 0, no reply expected)
             'bcast': draw(st.one_of(st.just([]), st.lists(st.sampled_from([False, False, True]), min_size=12, max_size=12))),
+            # connection attempts that are refused (the caller of that attempt may get a connection error; nobody may hang)
+            'refuse': draw(st.one_of(st.just([]), st.just([]), st.lists(st.sampled_from([False, False, True]), min_size=1, max_size=6))),
             'schedule': draw(st.lists(st.integers(0, 3), min_size=8, max_size=120))}
 
 
@@ -94,6 +96,7 @@ class ReplyPeer(transports.Peer):
 
 def _run(case):
     from pymodbus.client.sync import ModbusTcpClient, ModbusSerialClient
+    from pymodbus.exceptions import ConnectionException
     pm.reset_globals()
     framing = 'tcp' if case['client'] == 'tcp' else 'rtu'
     peer = ReplyPeer(framing, case['split'], case.get('faults') or [])
@@ -104,6 +107,7 @@ def _run(case):
     marks = []
     discs = []
     with transports.World(peer, scheduler=s) as w:
+        w.connect_refusals = list(case.get('refuse') or []) if case['client'] == 'tcp' else []
         if case['client'] == 'tcp':
             client = ModbusTcpClient('peer', 502, timeout=1, **kw)
         else:
@@ -114,11 +118,17 @@ def _run(case):
                     addr = t * 16 + j
                     qty = 1 + (t + j) % 4
                     w.log.append(('tx-begin', s.cur, (t, j)))
-                    if bc and bc[(t * 3 + j) % len(bc)]:
-                        r = client.write_register(addr, 7, unit=0)
-                        qty = 0
-                    else:
-                        r = client.read_holding_registers(addr, qty, unit=1 + t)
+                    try:
+                        if bc and bc[(t * 3 + j) % len(bc)]:
+                            r = client.write_register(addr, 7, unit=0)
+                            qty = 0
+                        else:
+                            r = client.read_holding_registers(addr, qty, unit=1 + t)
+                    except ConnectionException as e:
+                        if not case.get('refuse'):
+                            raise
+                        r = e          # a refused connection may surface as a connection error of THIS call
+                        qty = -1
                     w.log.append(('tx-end', s.cur, (t, j)))
                     results[(t, j)] = (addr, qty, r)
             s.spawn('t%d' % t, fn)
@@ -150,6 +160,8 @@ def _run(case):
     # (c) every caller got its own reply
     if not discs:
         for (t, j), (addr, qty, r) in sorted(results.items()):
+            if qty == -1:
+                continue
             if qty == 0:
                 if not isinstance(r, bytes):
                     discs.append(Disc('wrong-reply', '%s thread %d tx %d: broadcast write returned %r' % (case['client'], t, j, r)))
@@ -157,7 +169,7 @@ def _run(case):
                 continue
             want = [(addr * 3 + i + 1000) & 0xFFFF for i in range(qty)]
             got = getattr(r, 'registers', None)
-            if got != want and not _all_attempts_faulted(case):
+            if got != want and not _all_attempts_faulted(case) and not any(case.get('refuse') or []):
                 discs.append(Disc('wrong-reply', '%s thread %d tx %d asked for %d registers at %d and got %r (expected %r); schedule %r' % (
                     case['client'], t, j, qty, addr, got if got is not None else r, want, s.taken[:60])))
                 break
@@ -166,7 +178,7 @@ def _run(case):
             discs.append(Disc('lost-call', '%d of %d calls returned' % (len(results), total)))
     pm.reset_globals()
     return Outcome(discs, ['client:' + case['client'], 'threads:%d' % len(case['ntx'])] + (['lock-contended'] if s.blocked_someone else []) +
-                   (['faults'] if any(case.get('faults') or []) else []) + (['broadcast'] if any(bc) else []),
+                   (['faults'] if any(case.get('faults') or []) else []) + (['connect-refused'] if any(case.get('refuse') or []) else []) + (['broadcast'] if any(bc) else []),
                    s.blocked_someone), s
 
 
